@@ -42,30 +42,36 @@ def jsonParse (text : Str) : Option JV := (parseText text).map denote
 /-! ### §15.12.2 the reviver: Walk(holder, name) -/
 
 mutual
-/-- Walk(holder, name) with val = holder.[[Get]](name) passed in: the elements (by index) resp. the own
-    enumerable properties are walked first and replaced by the result, or deleted when it is undefined;
-    then the reviver is called on the holder's property.  Returns what that call did and the keys of
-    the reviver calls in call order. -/
-def revive (f : Reviver) : Nat → Str → RV → RRes × List Str
-  | 0, _, _ => (⟨none, none⟩, [])
-  | fuel + 1, name, .arr l =>
-    let r := reviveArr f fuel 0 l
-    (f name (.arr r.1), r.2 ++ [name])
-  | fuel + 1, name, .obj m =>
+/-- Walk(holder, name) with val = holder.[[Get]](name) passed in (`hk`: the holder is an array 65 / an
+    object 79): the elements resp. the own enumerable properties are walked first and replaced by the
+    result, or deleted when it is undefined; then the reviver is called on the holder's property.
+    Returns what that call did and the (holder kind, key) of the reviver calls in call order. -/
+def revive (f : Reviver) : Nat → Nat → Str → RV → RRes × List Str
+  | 0, _, _, _ => (⟨none, .none⟩, [])
+  | fuel + 1, hk, name, .arr l =>
+    let r := reviveArr f fuel 0 (RVs.len l) l            -- 2.a.i: len = val.[[Get]]("length"), once
+    (f name (.arr r.1), r.2 ++ [hk :: name])
+  | fuel + 1, hk, name, .obj m =>
     let r := reviveObj f fuel (RMs'.keys m) m
-    (f name (.obj r.1), r.2 ++ [name])
-  | _ + 1, name, v => (f name v, [name])
-/-- step 2.a: I from 0 to len-1 -/
-def reviveArr (f : Reviver) : Nat → Nat → RVs → RVs × List Str
-  | 0, _, _ => (.nil, [])
-  | _ + 1, _, .nil => (.nil, [])
-  | fuel + 1, i, .cons v t =>
-    let r := revive f fuel (decimalNat i) v
-    let rest := reviveArr f fuel (i + 1) t
-    (.cons (match r.1.val with | some x => x | none => .undef) rest.1, r.2 ++ rest.2)
+    (f name (.obj r.1), r.2 ++ [hk :: name])
+  | _ + 1, hk, name, v => (f name v, [hk :: name])
+/-- step 2.a.ii-iii: "Repeat while I < len": newElement = Walk(val, ToString(I)) — [[Get]] gives
+    undefined for an element that is gone — then [[Delete]] or [[DefineOwnProperty]]; whatever the
+    reviver does to the length of `this`, exactly the indices below the ORIGINAL len are visited -/
+def reviveArr (f : Reviver) : Nat → Nat → Nat → RVs → RVs × List Str
+  | 0, _, _, cur => (cur, [])
+  | fuel + 1, i, len, cur =>
+    if i < len then
+      let r := revive f fuel 65 (decimalNat i) (RVs.getI i cur)
+      let cur1 := r.1.eff.onArr cur                    -- what the reviver did to `this`
+      let rest := reviveArr f fuel (i + 1) len (match r.1.val with
+        | none => RVs.delI i cur1
+        | some x => RVs.setI i x cur1)
+      (rest.1, r.2 ++ rest.2)
+    else (cur, [])
 /-- step 2.b: keys = the own enumerable property names, taken BEFORE any is walked; for each P in
-    keys: newElement = Walk(val, P) — [[Get]] gives undefined for a property deleted meanwhile —
-    then [[Delete]] or [[DefineOwnProperty]] -/
+    keys: newElement = Walk(val, P) — [[Get]] gives undefined for a property deleted meanwhile, a
+    property added meanwhile is not visited — then [[Delete]] or [[DefineOwnProperty]] -/
 def reviveObj (f : Reviver) : Nat → List Str → RMs' → RMs' × List Str
   | 0, _, cur => (cur, [])
   | _ + 1, [], cur => (cur, [])
@@ -73,10 +79,8 @@ def reviveObj (f : Reviver) : Nat → List Str → RMs' → RMs' × List Str
     let val := match RMs'.get p cur with
       | some v => v
       | none => .undef
-    let r := revive f fuel p val
-    let cur1 := match r.1.del with           -- what the reviver did to `this`
-      | some d => RMs'.del d cur
-      | none => cur
+    let r := revive f fuel 79 p val
+    let cur1 := r.1.eff.onObj cur                      -- what the reviver did to `this`
     let rest := reviveObj f fuel keys (match r.1.val with
       | none => RMs'.del p cur1
       | some x => RMs'.set p x cur1)
